@@ -25,14 +25,17 @@ import (
 
 func filterOutHLSParams(rawQuery string) string {
 	if rawQuery != "" {
-		if q, err := url.ParseQuery(rawQuery); err == nil {
-			for k := range q {
-				if strings.HasPrefix(k, "_HLS_") {
-					delete(q, k)
-				}
-			}
-			rawQuery = q.Encode()
+		q, err := url.ParseQuery(rawQuery)
+		if err != nil {
+			// a query that cannot be parsed cannot be copied into playlists safely
+			return ""
 		}
+		for k := range q {
+			if strings.HasPrefix(k, "_HLS_") {
+				delete(q, k)
+			}
+		}
+		rawQuery = q.Encode()
 	}
 	return rawQuery
 }
